@@ -252,9 +252,9 @@ func classify(msg string) string {
 	case has("LAST is allowed only in array subscripts"):
 		return "last_subscript"
 	case has("strconv.ParseInt"):
-		return "int_range"
+		return "int_parse"
 	case has("strconv.ParseFloat"):
-		return "float_range"
+		return "float_parse"
 	}
 	return "other"
 }
@@ -327,7 +327,47 @@ func api(src string) string {
 	return sb.String()
 }
 
+// regexOracle answers the model's regex_ok queries with the real code:
+// lines "hexpattern mask" -> "hexpattern mask 0|1".
+func regexOracle() {
+	in := bufio.NewScanner(os.Stdin)
+	in.Buffer(make([]byte, 1<<20), 1<<26)
+	out := bufio.NewWriter(os.Stdout)
+	defer out.Flush()
+	for in.Scan() {
+		var hp string
+		var mask int
+		if _, err := fmt.Sscanf(in.Text(), "%s %d", &hp, &mask); err != nil {
+			continue
+		}
+		pat := ""
+		if hp != "e" {
+			raw, err := hex.DecodeString(strings.TrimPrefix(hp, "x"))
+			if err != nil {
+				continue
+			}
+			pat = string(raw)
+		}
+		flags := ""
+		for i, c := range "ismxq" {
+			if mask&(1<<i) != 0 {
+				flags += string(c)
+			}
+		}
+		_, err := ast.NewRegex(ast.NewConst(ast.ConstRoot), pat, flags)
+		ok := 0
+		if err == nil {
+			ok = 1
+		}
+		fmt.Fprintf(out, "%s %d %d\n", hp, mask, ok)
+	}
+}
+
 func main() {
+	if len(os.Args) > 1 && os.Args[1] == "-regex" {
+		regexOracle()
+		return
+	}
 	withAPI := len(os.Args) > 1 && os.Args[1] == "-api"
 	in := bufio.NewScanner(os.Stdin)
 	in.Buffer(make([]byte, 1<<20), 1<<26)
